@@ -22,12 +22,12 @@ ASSUMPTIONS = ["float32 accumulation error gate 1e-4 relative (measured noise ~1
 RULE = ("data classes {constant, two-valued, 2/4/8-bit uniform, float32 normal, wide-range float, one huge outlier, tiny amplitude (1e-6)} x nchans {1,3,8} x modes {basic,full}: "
         "n in 1..10 all 2^(n-1) compositions + all split points; n in 11..2000 random compositions (incl. single-sample chunks), merges k in {1,n-1,random}, "
         "merge of merges. Non-trivial = >= 2 chunks or a merge; distinct = distinct (class, n, nchans, mode, composition/merge tree, seed).")
-CLASSES = ("constant", "two_valued", "bits2", "bits4", "bits8", "normal", "wide", "outlier", "tiny")
+CLASSES = ("constant", "two_valued", "bits2", "bits4", "bits8", "normal", "wide", "outlier", "tiny", "const_f64", "normal_f64")
 
 
 def REQUIRED(tier):
     return ["histories:composition", "histories:merge", "histories:merge_of_merges", "class:constant", "class:wide", "class:outlier", "class:tiny",
-            "mode:basic", "mode:full", "constant_channel_checks", "single_sample_chunks", "canary_audits", "cross_partition_checks"]
+            "mode:basic", "mode:full", "constant_channel_checks", "single_sample_chunks", "canary_audits", "cross_partition_checks", "class:const_f64", "class:normal_f64", "histories:large_merge", "regime:merged_count_over_2^21"]
 
 
 def cases(tier, seed):
@@ -38,6 +38,10 @@ def cases(tier, seed):
                 for nch in (1, 3):
                     k += 1
                     yield {"kind": "exhaustive", "cls": cls, "mode": mode, "n": n, "nchans": nch, "dseed": int(seed) * 1009 + k}
+    for i, n in enumerate((100000, 1 << 21, (1 << 21) + 2, 2200000, 3000000, 5000000) if tier == "quick" else (100000, 1500000, 1 << 21, (1 << 21) + 2, 2200000, 2500000, 3000000, 4000000, 5000000, 8000000)):
+        for split, shift in ((0.5, 5.0), (0.1, -3.0)) if tier == "quick" else ((0.5, 5.0), (0.1, -3.0), (0.9, 40.0), (0.5, 0.0)):
+            k += 1
+            yield {"kind": "large_merge", "n": n, "split": split, "shift": shift, "dseed": int(seed) * 1009 + k}
     rng = np.random.default_rng([seed, 1010])
     nr = 400 if tier == "quick" else 8000
     for _ in range(nr):
@@ -69,6 +73,12 @@ def gen_data(cls, n, nch, dseed):
         x[rng.integers(0, n), :] = 3.0e4
         if n > 2:
             x[:, 0] = 7.0  # one constant channel next to outlier channels
+    elif cls == "const_f64":   # double-precision constants that single precision cannot represent
+        x = np.tile(rng.choice([0.1, 3.3, 1.0e6 + 0.1, -2.0 / 3.0], size=nch), (n, 1)).astype(np.float64)
+    elif cls == "normal_f64":
+        x = rng.normal(size=(n, nch)) * rng.uniform(0.5, 20) + rng.uniform(-50, 50)
+        if n > 2:
+            x[:, 0] = 0.1
     else:
         raise ValueError(cls)
     return x
@@ -107,10 +117,12 @@ def _check(ctx, case, what, got, ref, x, mode, hist):
     if not np.all(got["count"] == n):
         ctx.violation(f"count:{tag}", f"count {got['count'][:4].tolist()} != {n} (history {hist})", one)
         return False
-    if not np.array_equal(got["min"], ref["min"]) or not np.array_equal(got["max"], ref["max"]):
+    # the accumulator holds single-precision extremes: for double-precision input they are the rounded extremes
+    rmin, rmax = (ref[k].astype(np.float32).astype(np.float64) if x.dtype == np.float64 else ref[k] for k in ("min", "max"))
+    if not np.array_equal(got["min"], rmin) or not np.array_equal(got["max"], rmax):
         ctx.violation(f"minmax:{tag}", f"min/max {got['min'][:3].tolist()}/{got['max'][:3].tolist()} vs {ref['min'][:3].tolist()}/{ref['max'][:3].tolist()} (history {hist})", one)
         return False
-    const = ref["m2"] == 0
+    const = ref["min"] == ref["max"]
     if np.any(const):
         ctx.count("constant_channel_checks", int(const.sum()))
         if np.any(got["var"][const] != 0) or (mode == "full" and np.any(got["skew"][const] != 0)):
@@ -151,8 +163,42 @@ def _agree(ctx, case, mode, a, b, ha, hb):
     return True
 
 
+def _large_merge(case, ctx):
+    """Accumulators holding millions of samples each, with different levels (two files of one observation): the merge terms
+    carry count^2 and count^3."""
+    from sigpyproc.core.stats import ChannelStats
+
+    rng = np.random.default_rng([case["dseed"], 77])
+    n = int(case["n"])
+    mode = "full"
+    x = rng.normal(size=(n, 1)).astype(np.float32)
+    k = int(case["split"] * n)
+    x[k:] += np.float32(case["shift"])
+    ref = refmodels.moments_two_pass(x)
+    ctx.evaluated(); ctx.count("histories:large_merge"); ctx.count("class:large"); ctx.count(f"mode:{mode}")
+    if n > (1 << 21):
+        ctx.count("regime:merged_count_over_2^21")
+    hist = ["merge", k, n - k]
+    try:
+        a = ChannelStats(1, k); a.push_data(x[:k].ravel(), 0, mode=mode)
+        b = ChannelStats(1, n - k); b.push_data(x[k:].ravel(), 0, mode=mode)
+        got = _stats(a + b, mode)
+        one_shot = ChannelStats(1, n); one_shot.push_data(x.ravel(), 0, mode=mode)
+        got1 = _stats(one_shot, mode)
+    except Exception as exc:  # noqa: BLE001
+        ctx.violation(f"raised:large_merge:{type(exc).__name__}@{exc_site(exc)}", fmt_exc(exc), dict(case, history=hist))
+        return
+    c2 = dict(case, cls="large")
+    if _check(ctx, c2, "large_merge", got, ref, x, mode, hist) and _check(ctx, c2, "large_one_shot", got1, ref, x, mode, [n]):
+        _agree(ctx, c2, mode, got, got1, hist, [n])
+        ctx.nontrivial_case({"c": "large", "n": n, "k": k, "s": case["dseed"]})
+
+
 def run_case(case, ctx):
     from sigpyproc.core.stats import ChannelStats
+
+    if case["kind"] == "large_merge":
+        return _large_merge(case, ctx)
 
     cls, mode, n, nch = case["cls"], case["mode"], case["n"], case["nchans"]
     if case.get("threads"):
